@@ -621,6 +621,11 @@ func (w *World) Apply(ctx sdk.Context, l *Ledger, op Op, fail func(a, s, d strin
 	case "epoch":
 		return w.boundary(ctx, l, w.E+time.Second, fail)
 	case "jump":
+		if op.X == 1 {
+			// exactly one unbonding period: an undelegation made in the current block matures at the new block time to
+			// the nanosecond (the tie between "matures at" and "block time")
+			return w.boundary(ctx, l, w.U, fail)
+		}
 		return w.boundary(ctx, l, w.U+time.Second, fail)
 	case "ff":
 		out := "ok"
@@ -1318,7 +1323,7 @@ func (w *World) Enabled(al *Alphabet) func(ctx sdk.Context, l *Ledger, depth int
 		if al.CL {
 			ops = append(ops, Op{K: "clswap", X: 0}, Op{K: "clswap", X: 1})
 		}
-		ops = append(ops, Op{K: "tick"}, Op{K: "epoch"}, Op{K: "jump"})
+		ops = append(ops, Op{K: "tick"}, Op{K: "epoch"}, Op{K: "jump"}, Op{K: "jump", X: 1})
 		return ops
 	}
 }
